@@ -24,6 +24,8 @@ def plan(tier, seed):
     jobs.append(ch("C20", F, "h_head_leaves_handle", t, ["api.ParquetFile.head", "api.ParquetFile.__getitem__"]))
     jobs.append(dict(name="C20-lemma-no-module-buffers", kind="pyfunc", timeout=300,
                      payload=dict(func="vf.pyshim.lemma_c20:no_module_buffers")))
+    jobs.append(dict(name="C20-lemma-memo-published-once", kind="pyfunc", timeout=300,
+                     payload=dict(func="vf.pyshim.lemma_c20:memo_published_once")))
     extra = dict(
         explanation="The real schema_tree / flatten / SchemaHelper.__init__ (what `pf[i]` runs on the schema elements it "
                     "shares with its parent) and the real SchemaHelper lookups are re-compiled from their source with "
